@@ -631,6 +631,11 @@ fn global_invariants(s: &mut Pool3, ctx: &mut Ctx, before: &Obs, after: &Obs, ok
     }
     ctx.eval("C07");
     for i in 0..3 {
+        if after.pending[i] > after.bal[i] {
+            ctx.fail("C07", "pending_fees_held", "pending_gt_balance", None, format!("{opname}: asset {i}: the pool owes {} of protocol fees but holds only {}", after.pending[i], after.bal[i]));
+        }
+    }
+    for i in 0..3 {
         let expect = s.model.charged[i].saturating_sub(s.model.received[i]);
         if after.pending[i] != expect {
             ctx.fail("C07", "trio_pending_ledger", "pending_ne_charged_minus_received", None, format!("{opname}: asset {i}: pending {} != charged {} - received {}", after.pending[i], s.model.charged[i], s.model.received[i]));
